@@ -17,14 +17,15 @@ void bookkeeping(const Args& a, Recorder& rec, long& idx) {
             if ((idx++ % a.nshards) != a.shard) continue;
             Shape sh; long s2 = sc; int total = 0; std::string repr = "sites:";
             for (int k = 0; k < ns; ++k) { SiteSpec s; s.label = LB[li[k]]; s.orb = 1 + (s2 % 3); s.spin = 1 + ((s2 / 3) % 3); s2 /= 9; sh.sites.push_back(s); total += s.orb * s.spin; repr += "'" + s.label + "'(" + std::to_string(s.orb) + "," + std::to_string(s.spin) + ")"; }
-            for (int mode = 0; mode < 2; ++mode) {
-                std::string kase = repr + " order_spins=" + std::to_string(mode);
+            // call histories of prepare(): once; after a prepare() in the OTHER ordering mode (switching the mode on the same object); twice in the same mode
+            for (int mh = 0; mh < 6; ++mh) { int mode = mh % 2, hist = mh / 2;
+                std::string kase = repr + " order_spins=" + std::to_string(mode) + (hist == 1 ? " after prepare(other mode)" : hist == 2 ? " prepared twice" : "");
                 if (!a.want(kase)) continue;
                 marker("C18 " + kase); rec.states++; rec.evaluations++; rec.transitions++; if (idx % 1013 == 0) rec.sample(kase);
                 bool hetero = false; for (auto& s : sh.sites) if (s.spin != sh.sites[0].spin || s.orb != sh.sites[0].orb) hetero = true; if (hetero) rec.nontrivial++;
                 std::string fam = std::string(mode ? "order_spins" : "default") + (hetero ? ":heterogeneous" : ":homogeneous");
                 Lattice L; build_sites(L, sh); IndexClassification IC(L.getSiteMap());
-                try { IC.prepare(mode); } catch (std::exception& e) { rec.violation("C18:prepare-throws:" + fam, "IndexClassification::prepare throws", kase); continue; }
+                try { if (hist == 1) IC.prepare(!mode); if (hist == 2) IC.prepare(mode); IC.prepare(mode); } catch (std::exception& e) { rec.violation("C18:prepare-throws:" + fam, "IndexClassification::prepare throws", kase); continue; }
                 int N = IC.getIndexSize();
                 if (N != total) { rec.violation("C18:index-size:" + fam, "getIndexSize != sum of orbitals*spins", kase); continue; }
                 std::set<std::tuple<std::string,int,int> > seen; bool ok = true; int lastspin = -1; std::set<int> closed;
